@@ -10,8 +10,8 @@ ID = "C12"
 MODULE = ['TT.Props.C12', 'TT.Props.C12Land', 'TT.Props.Pinned', 'TT.Props.C12Ref']
 RULE = ("random well-formed trees whose root has 1..6 children (tokens and constituents, continuous or not, adjacent, "
         "interleaved, at the sentence edges, inside gaps) + all shapes up to 4/5 tokens; non-trivial: some node changed parent")
-TRUSTED = ["the set-based reference of the documented rule is the model function rootAttach itself "
-           "(lowest node whose token set contains both neighbours); its characteristic properties are theorems"]
+TRUSTED = ["the set-based reference TT/Spec/RootAttachRef.lean (parent maps and token sets; about 75 lines) is a statement of intent; "
+           "rootAttach_eq_ref proves the model equal to it, the implementation's output is compared with it for sentences of up to 80 tokens"]
 ASSUMPTIONS = ["input trees are well formed"]
 
 
